@@ -1,4 +1,4 @@
-"""KF-C12-5: an alignment directive written between an ASCII literal and the
+"""FX-C12-5 (was KF-C12-5): an alignment directive written between an ASCII literal and the
 stand-alone NUL that terminates it is moved behind the NUL.
 
 `.ascii "hi"` leaves an empty current block; `.balign 4` records the alignment
@@ -11,7 +11,7 @@ alignment still on it - one byte later.  The text asks for the NUL to be
 Property C12 (C12_Alignment): a block carries the alignment requested at its
 position, and nothing else.
 
-Run:  /venv/bin/python /verif/findings/KF-C12-5/repro.py
+Run:  /venv/bin/python /verif/findings/FX-C12-5/repro.py
 """
 import gtirb
 from gtirb_test_helpers import create_test_module
@@ -25,5 +25,9 @@ s = a.finalize().text_section
 got = [(type(b).__name__, b.offset, b.size, s.alignment.get(b, 0)) for b in s.blocks]
 print(got)
 # the request sits at offset 3 (before the NUL); it ends up on the block at offset 4
-assert got == [("CodeBlock", 0, 1, 0), ("DataBlock", 1, 3, 0), ("CodeBlock", 4, 1, 4)], got
-print("REPRODUCED: `.balign` between an ASCII literal and its NUL is applied behind the NUL")
+import sys
+if got == [("CodeBlock", 0, 1, 0), ("DataBlock", 1, 3, 0), ("CodeBlock", 4, 1, 4)]:
+    print("DEFECT: `.balign` between an ASCII literal and its NUL is applied behind the NUL")
+    sys.exit(1)
+assert got == [("CodeBlock", 0, 1, 0), ("DataBlock", 1, 2, 0), ("DataBlock", 3, 1, 4), ("CodeBlock", 4, 1, 0)], got
+print("ok (repaired): the NUL is a block of its own and carries the alignment")
